@@ -5,6 +5,8 @@
 package c11
 
 import (
+	"time"
+	"strings"
 	"bytes"
 	"fmt"
 	"os"
@@ -77,6 +79,24 @@ func resultsFor(fn *corpus.Fn, code int) []reflect.Value {
 type steady struct {
 	name  string
 	check func(i int) error // one call + oracle; must not write shared state
+}
+
+// trimStacks keeps the goroutines that are inside goom
+func trimStacks(all string) string {
+	var keep []string
+	for _, g := range strings.Split(all, "\n\n") {
+		if strings.Contains(g, "tencent/goom/internal") || strings.Contains(g, "tencent/goom.(") {
+			lines := strings.Split(g, "\n")
+			if len(lines) > 14 {
+				lines = lines[:14]
+			}
+			keep = append(keep, strings.Join(lines, "\n"))
+		}
+		if len(keep) >= 4 {
+			break
+		}
+	}
+	return strings.Join(keep, "\n\n")
 }
 
 // zoo functions whose origin-apply goom refuses
@@ -168,7 +188,7 @@ func runRound(ci interface{}, s *vkit.Stats) error {
 	total := c.Mockers + c.Callers
 	errs := make([]error, total)
 	var wg sync.WaitGroup
-	var steadyCalls, mockOps, refusedRestubs, tinyOps int64
+	var steadyCalls, mockOps, refusedRestubs, tinyOps, genericOps int64
 	yieldOf := func(g int) int {
 		if len(c.Yields) == 0 {
 			return 0
@@ -232,6 +252,19 @@ func runRound(ci interface{}, s *vkit.Stats) error {
 					if y := yieldOf(g); y > 0 && it%y == 0 {
 						runtime.Gosched()
 					}
+				}
+				if g == 0 {
+					// a method of an instantiated generic type (the scan for its shape function reads code outside the patch lock)
+					gi := corpus.GenInsts[it%len(corpus.GenInsts)]
+					if pv := guard(func() { b.Struct(gi.StructArg).Method("Count").Return(4242 + it) }); pv != nil {
+						errs[g] = fmt.Errorf("mocker %d: stubbing %s.Count panicked: %v", g, gi.Name, pv)
+						return
+					}
+					if got := gi.Count(); got != 4242+it {
+						errs[g] = fmt.Errorf("mocker %d iteration %d: after its own Return, %s.Count() = %d, want %d", g, it, gi.Name, got, 4242+it)
+						return
+					}
+					atomic.AddInt64(&genericOps, 1)
 				}
 				// tiny adjacent functions: neighbours (two per 64-byte line) belong to different mocker goroutines
 				for ti := g; ti < len(corpus.Tiny); ti += c.Mockers {
@@ -339,8 +372,21 @@ func runRound(ci interface{}, s *vkit.Stats) error {
 		atomic.StoreInt32(&stop, 1)
 		close(mdone)
 	}()
-	<-mdone
-	<-done
+	// a round takes well under a second; one that has not finished after 90 s is stuck (a lock that is never released): that is a
+	// liveness bound two orders of magnitude above the normal duration, not a performance expectation. The stuck goroutines
+	// cannot be recovered, so the violation is recorded and the process ends.
+	finished := make(chan struct{})
+	go func() { <-mdone; <-done; close(finished) }()
+	select {
+	case <-finished:
+	case <-time.After(90 * time.Second):
+		buf := make([]byte, 1<<16)
+		buf = buf[:runtime.Stack(buf, true)]
+		msg := fmt.Sprintf("the round did not finish within 90 s: mocker and caller goroutines are blocked (deadlock); %d mock operations and %d steady calls were completed. Goroutines:\n%s", atomic.LoadInt64(&mockOps), atomic.LoadInt64(&steadyCalls), trimStacks(string(buf)))
+		s.Violation(msg, c)
+		s.Flush()
+		os.Exit(1)
+	}
 	for _, e := range errs {
 		if e != nil {
 			return e
@@ -356,6 +402,7 @@ func runRound(ci interface{}, s *vkit.Stats) error {
 	}
 	s.ClassN("refused-restubs-over-a-live-mock", int(refusedRestubs))
 	s.ClassN("stubs-on-tiny-neighbours-sharing-a-64-byte-line", int(tinyOps))
+	s.ClassN("stubs-on-generic-methods-while-others-patch", int(genericOps))
 	s.ClassN("steady-calls", int(steadyCalls))
 	s.ClassN("mocker-apply-restub-reset-cycles", int(mockOps))
 	s.Class("rounds")
